@@ -278,7 +278,13 @@ fn shrink_biggest_param(qos: &mut Vec<Par>, excess: usize) {
 /// Makes the generated message one a dust-dds component can build: flags consistent with content,
 /// set members within the constructors' preconditions, fragment fields consistent, and bodies above
 /// 65535 octets only in the last position (RTPS cannot express them anywhere else).
-pub fn normalise(mut m: MsgM) -> MsgM {
+pub fn normalise(m: MsgM) -> MsgM {
+    // two passes: the size fitting of the first pass can shorten a fragment run, which the second pass
+    // takes into account for the sample size; the result is a fixed point (replay re-normalises)
+    normalise_once(normalise_once(m))
+}
+
+fn normalise_once(mut m: MsgM) -> MsgM {
     let n = m.subs.len();
     for (i, s) in m.subs.iter_mut().enumerate() {
         match s {
@@ -1287,8 +1293,8 @@ pub fn main(ctx: &Ctx) -> ! {
         }
         vcore::finish(ctx, meta, report);
     }
-    let cases: u32 = ctx.pick(100_000, 3_000_000);
-    let shards = ctx.pick(2, 8);
+    let cases: u32 = ctx.pick(100_000, 6_000_000);
+    let shards = ctx.pick(4, 8);
     let report = vcore::run_sharded(ctx, shards, |ctx| {
         let mut report = Report::default();
         let n = ctx.share(cases as u64) as u32;
